@@ -237,9 +237,15 @@ fn oracle(c: &Case, acc: &mut Acc) -> CaseResult {
                 let (s, r) = (d, 1 - d);
                 if let T::F(t) = &mut ts[s] {
                     t.verif_set_sending_nonce(v);
+                    if t.sending_nonce() != v {
+                        return Err(Fail::setup(format!("{ctx}: the sending counter could not be placed at {v} (C09's business)")));
+                    }
                 }
                 if let T::F(t) = &mut ts[r] {
                     t.set_receiving_nonce(v);
+                    if t.receiving_nonce() != v {
+                        return Err(Fail::setup(format!("{ctx}: the receiving counter could not be placed at {v} (C09's business)")));
+                    }
                 }
             },
             Op::ManualR(side_i, a) => {
